@@ -289,6 +289,21 @@ func runCheck(o *checkOpts) (int, error) {
 		}
 	}
 
+	// a closure expanded at two call sites (env.View / env.Update branches)
+	// yields obligations with the same name: number the later ones
+	{
+		seen := map[string]int{}
+		for i := range all {
+			n := all[i].O.Name
+			seen[n]++
+			if seen[n] > 1 {
+				all[i].O.Name = fmt.Sprintf("%s~%d", n, seen[n])
+			}
+		}
+	}
+	if os.Getenv("LSVC_DEBUG") != "" {
+		fmt.Fprintf(os.Stderr, "encoding done at %.1fs (%d obligations)\n", time.Since(t0).Seconds(), len(all))
+	}
 	// solve
 	var wg sync.WaitGroup
 	sem := make(chan struct{}, 14)
@@ -306,6 +321,9 @@ func runCheck(o *checkOpts) (int, error) {
 		}(&all[i])
 	}
 	wg.Wait()
+	if os.Getenv("LSVC_DEBUG") != "" {
+		fmt.Fprintf(os.Stderr, "solving done at %.1fs\n", time.Since(t0).Seconds())
+	}
 
 	rep := &Report{Prop: prop, Opts: o, L: L, All: all, EncErrs: encErrs, Encs: encs, Funcs: funcsUnder, T0: t0, Work: work}
 	return rep.finish()
@@ -333,7 +351,7 @@ func decide(r *oblResult, o *checkOpts, work string) {
 	if budget > o.timeout {
 		budget = o.timeout
 	}
-	res := solve(work, ob.Name, q, budget, o.seed, "")
+	res := solveSliced(work, ob.Name, q, budget, o.seed)
 	if res.Status == "unsat" || res.Status == "sat" {
 		ob.Res = res
 		return
@@ -377,15 +395,17 @@ func decide(r *oblResult, o *checkOpts, work string) {
 			return
 		}
 	}
-	res = solve(work, ob.Name+".retry", q, o.timeout, o.seed+7, "")
+	res = solveSliced(work, ob.Name+".retry", q, o.timeout, o.seed+7)
 	finish(res, "")
 }
 
-const maxCubeVars = 7
+const maxCubeVars = 8
 
-// solveCubes splits the query on (at most maxCubeVars of) the recorded
-// memory-selecting conditions. ok is false when there is nothing to split on
-// or some case stayed undecided.
+// solveCubes refines the query adaptively on the recorded case-split
+// conditions (branches that merge different memories or local values): a cube
+// that stays undecided within a short budget is split on the next condition;
+// leaves get the full budget. ok is false when there is nothing to split on or
+// some cube stayed undecided.
 func solveCubes(e *Enc, ob *Obligation, goal T, o *checkOpts, work, name string) (SolveResult, bool) {
 	var conds []T
 	for _, sc := range e.splitConds {
@@ -399,66 +419,99 @@ func solveCubes(e *Enc, ob *Obligation, goal T, o *checkOpts, work, name string)
 	if len(conds) > maxCubeVars {
 		conds = conds[len(conds)-maxCubeVars:]
 	}
-	n := 1 << uint(len(conds))
-	results := make([]SolveResult, n)
-	var wg sync.WaitGroup
-	sem := make(chan struct{}, 4)
+	// latest condition first: it is the closest to the obligation
+	for i, j := 0, len(conds)-1; i < j; i, j = i+1, j-1 {
+		conds[i], conds[j] = conds[j], conds[i]
+	}
 	var mu sync.Mutex
-	stop := false
-	for m := 0; m < n; m++ {
-		wg.Add(1)
-		go func(m int) {
-			defer wg.Done()
-			sem <- struct{}{}
-			defer func() { <-sem }()
-			mu.Lock()
-			if stop {
-				mu.Unlock()
-				results[m] = SolveResult{Status: "skipped"}
-				return
-			}
-			mu.Unlock()
-			o2 := *ob
-			o2.Goal = goal
-			o2.Extra = append([]string{}, ob.Extra...)
-			for i, c := range conds {
-				if m&(1<<uint(i)) != 0 {
-					o2.Extra = append(o2.Extra, "(assert "+c.S+")")
-				} else {
-					o2.Extra = append(o2.Extra, "(assert (not "+c.S+"))")
-				}
-			}
-			res := solve(work, fmt.Sprintf("%s.case%d", name, m), e.query(&o2, false), o.timeout, o.seed, "")
-			res.Cube = o2.Extra
-			results[m] = res
-			if os.Getenv("LSVC_DEBUG") != "" {
-				fmt.Fprintf(os.Stderr, "case %s #%d: %s %s %dms\n", name, m, res.Status, res.Solver, res.Ms)
-			}
-			if res.Status != "unsat" {
-				mu.Lock()
-				stop = true
-				mu.Unlock()
-			}
-		}(m)
-	}
-	wg.Wait()
 	var total int64
-	var last SolveResult
-	for _, r := range results {
-		total += r.Ms
-		if r.Status == "sat" {
-			r.Ms = total
-			return r, true
+	ncase := 0
+	stop := false
+	sem := make(chan struct{}, 8)
+	var refine func(extra []string, rest []T, id string) SolveResult
+	// split: two conditions at a time (four cubes), so that a deep refinement
+	// costs half as many sequential short attempts
+	var split func(extra []string, rest []T, id string) SolveResult
+	split = func(extra []string, rest []T, id string) SolveResult {
+		k := 2
+		if len(rest) < k {
+			k = len(rest)
 		}
-	}
-	for _, r := range results {
-		if r.Status != "unsat" {
-			return r, false
+		n := 1 << uint(k)
+		rs := make([]SolveResult, n)
+		var wg sync.WaitGroup
+		for m := 0; m < n; m++ {
+			wg.Add(1)
+			go func(m int) {
+				defer wg.Done()
+				ex := append([]string{}, extra...)
+				cid := id
+				for i := 0; i < k; i++ {
+					if m&(1<<uint(i)) != 0 {
+						ex = append(ex, "(assert "+rest[i].S+")")
+						cid += "1"
+					} else {
+						ex = append(ex, "(assert (not "+rest[i].S+"))")
+						cid += "0"
+					}
+				}
+				rs[m] = refine(ex, rest[k:], cid)
+			}(m)
 		}
-		last = r
+		wg.Wait()
+		for _, r := range rs {
+			if r.Status == "sat" {
+				return r
+			}
+		}
+		for _, r := range rs {
+			if r.Status != "unsat" {
+				return r
+			}
+		}
+		return rs[0]
 	}
-	last.Ms = total
-	return last, true
+	refine = func(extra []string, rest []T, id string) SolveResult {
+		o2 := *ob
+		o2.Goal = goal
+		o2.Extra = extra
+		budget := 3
+		if len(rest) == 0 {
+			budget = o.timeout
+		}
+		if budget > o.timeout {
+			budget = o.timeout
+		}
+		sem <- struct{}{}
+		mu.Lock()
+		st := stop
+		mu.Unlock()
+		if st {
+			// a counterexample (or an undecidable leaf) was found elsewhere
+			<-sem
+			return SolveResult{Status: "skipped"}
+		}
+		res := solveSliced(work, fmt.Sprintf("%s.case%s", name, id), e.query(&o2, false), budget, o.seed)
+		<-sem
+		mu.Lock()
+		total += res.Ms
+		ncase++
+		if res.Status == "sat" || (len(rest) == 0 && res.Status != "unsat") {
+			stop = true
+		}
+		mu.Unlock()
+		if os.Getenv("LSVC_DEBUG") != "" {
+			fmt.Fprintf(os.Stderr, "case %s #%s: %s %s %dms\n", name, id, res.Status, res.Solver, res.Ms)
+		}
+		res.Cube = extra
+		if res.Status == "unsat" || res.Status == "sat" || len(rest) == 0 {
+			return res
+		}
+		return split(extra, rest, id)
+	}
+	res := split(append([]string{}, ob.Extra...), conds, "")
+	res.Ms = total
+	return res, res.Status == "unsat" || res.Status == "sat"
 }
 
 // splitGoal breaks a goal into conjuncts: (and a b) and (=> p (and a b)).
